@@ -38,6 +38,8 @@ func runC01(c *eng.Ctx) {
 	ruleReplaceOrdering(c)
 	c.Rule("R03.15", "K3")
 	ruleAppendsWakeParkedCommittedReaders(c)
+	c.Rule("R03.4", "K1")
+	ruleReplacedWatermarkSegmentReinitialises(c)
 	c.Rule("R01.1", "K5")
 	ruleOffsetIdentity(c)
 	c.Floor(8)
